@@ -86,6 +86,44 @@ theorem walkLambda_source_tie (t : RTable) (k r q : Nat) (h : quiescentCount t q
   rw [Int.ofNat_sub h]
   simp
 
+theorem lookup_map_inj {α β γ δ : Type} [BEq α] [LawfulBEq α] [BEq γ] [LawfulBEq γ] (f : α → γ) (g : β → δ)
+    (hf : ∀ a b, f a = f b → a = b) (k : α) (t : List (α × β)) :
+    List.lookup (f k) (t.map fun e => (f e.1, g e.2)) = (List.lookup k t).map g := by
+  induction t with
+  | nil => rfl
+  | cons e es ih =>
+    obtain ⟨a, v⟩ := e
+    simp only [List.map_cons, List.lookup_cons]
+    by_cases h : k = a
+    · subst h; simp
+    · have h2 : ¬ (f k = f a) := fun hh => h (hf _ _ hh)
+      have b1 : (k == a) = false := by simpa using h
+      have b2 : (f k == f a) = false := by simpa using h2
+      simp only [b1, b2]
+      exact ih
+
+theorem map_ofNat_inj (a b : List Nat) (h : a.map Int.ofNat = b.map Int.ofNat) : a = b := by
+  induction a generalizing b with
+  | nil => cases b <;> simp_all
+  | cons x xs ih =>
+    cases b with
+    | nil => simp at h
+    | cons y ys =>
+      simp only [List.map_cons, List.cons.injEq] at h
+      have hx : x = y := Int.ofNat.inj h.1
+      rw [hx, ih ys h.2]
+
+/-- **Source tie (C17), `table_rule`.** For every table and every neighbourhood the translated function returns the table's
+    entry when the neighbourhood's digit string is a key and raises otherwise — the model's `tableRule`. (Keys are digit
+    lists: `''.join(str(x) …)` of states below 10.) -/
+theorem tableRule_source_tie (nb : List Nat) (t : RTable) :
+    Gen.RuleTables.tableRule (nb.map Int.ofNat) (t.map fun e => (e.1.map Int.ofNat, (e.2 : Int)))
+      = ((tableRule nb t).toOption).map Int.ofNat := by
+  unfold Gen.RuleTables.tableRule tableRule RTable.get
+  have hl := lookup_map_inj (fun l : List Nat => l.map Int.ofNat) (fun v : Nat => (v : Int)) map_ofNat_inj nb t
+  simp only [hl]
+  cases h : List.lookup nb t <;> simp [Except.toOption]
+
 /-- Non-vacuity (a test): `k = 3`, `r = 1`, `q = 1`. -/
 example : Gen.RuleTables.rrtOtherStates 3 1 = [0, 2] ∧ Gen.RuleTables.rrtLambda 3 1 9 = (18, 27)
     ∧ Gen.RuleTables.rrtRejects 3 3 = true ∧ Gen.RuleTables.rrtRejects 3 2 = false := by decide
